@@ -1,5 +1,6 @@
 import Swat4.Lemmas.Rest
 import Swat4.Lemmas.Styles
+import Swat4.Lemmas.Clean
 import Swat4.Model.Rest
 import Swat4.Model.Styles
 import Swat4.Spec.RestSpec
@@ -289,6 +290,29 @@ example : Styles.toHTML "[b]a[\\U]\"[C=00ff7F]x[\\c]&".toList =
 example : RestSpec.Inert "<span style=\"color:#ff0000;\"><script>".toList = false := by decide
 example : RestSpec.Inert "a&b".toList = false := by decide
 example : RestSpec.Inert "<span style=\"color:#ff000;\">".toList = false := by decide
+
+/-- **The loop of `Clean` terminates within the model's fuel** (`length + 1` rounds): every round
+that finds a match deletes at least one stretch `[ … ]`, so the text gets strictly shorter
+(`delAll_length_lt`); the loop therefore leaves through the "no match" exit, never by exhaustion. -/
+theorem clean_loop_terminates (h : List Char) :
+    Styles.hasMatch Styles.mC (Styles.cleanLoop (h.length + 1) h) = false :=
+  Styles.cleanLoop_noMatch (h.length + 1) h (by omega)
+
+/-- **`hostname_plain` contains no SWAT style code**, for every hostname: nowhere in `Clean`'s
+output does a code of the reference definition start (`[c]`, `[\c]`, `[/u]`, `[B]`, … or `[c` + a
+non-word character + bracket-free text + `]`) — the loop ends without a match, the scanner finds
+every such code, and trimming white space at the ends cannot create one. -/
+theorem clean_no_codes (h : List Char) : RestSpec.NoCodes (Styles.clean h) = true :=
+  Styles.clean_noCodes h
+
+/-- non-vacuity: codes are removed repeatedly (removal can expose a new code), text is kept, and
+`NoCodes` rejects texts with codes -/
+example : Styles.clean "[c=FF[u]003[\\u]0][u]Serge[b][c=FF00]".toList = "Serge".toList := by decide
+example : Styles.clean " [c=ff0000]<script> [\\c] ".toList = "<script>".toList := by decide
+example : Styles.clean "[c]abc]".toList = "abc]".toList := by decide
+example : RestSpec.NoCodes "a[c=ff0000]b".toList = false := by decide
+example : RestSpec.NoCodes "[\\U]".toList = false := by decide
+example : RestSpec.NoCodes "[i]x[c".toList = true := by decide
 
 /-! ## facts read from the source -/
 
